@@ -85,7 +85,7 @@ func (se *Seen) AddRows(t *Table, cols []string, rows [][]string) {
 			se.Vals[c][r[i]] = struct{}{}
 		}
 	}
-	for _, ix := range IndexPalette {
+	for _, ix := range append(append([]Index{}, IndexPalette...), t.Indexes...) {
 		if len(ix.Cols) < 2 {
 			continue
 		}
@@ -110,7 +110,6 @@ func (se *Seen) AddRows(t *Table, cols []string, rows [][]string) {
 			se.Tuples[key][strings.Join(tup, "\x00")] = tup
 		}
 	}
-	_ = t
 }
 
 // AddDomain records every domain value of every column (used where the probe set must be fixed before
@@ -153,6 +152,23 @@ func Probes(t *Table, se *Seen, rnd *rand.Rand) []Probe {
 	var out []Probe
 	for _, ix := range t.Indexes {
 		out = append(out, probesFor(t, ix, se, rnd)...)
+	}
+	return out
+}
+
+// ProbesLite is the reduced probe set used inside fingerprints, where the same reads are repeated
+// many times per case: every point lookup and NULL, the ordered scans, two open ranges, one IN, and
+// the counts — no adjacent-range family.
+func ProbesLite(t *Table, se *Seen, rnd *rand.Rand) []Probe {
+	var out []Probe
+	for _, p := range Probes(t, se, rnd) {
+		switch {
+		case p.Limit > 0, strings.HasPrefix(p.Kind, "adjacent"), p.Kind == "between", p.Kind == "ne", p.Kind == "notnull",
+			p.Kind == "open<=", p.Kind == "open>", strings.HasSuffix(p.Kind, "-range") && strings.HasPrefix(p.Kind, "ordered"),
+			p.Kind == "nullsafe-eq", p.Kind == "count-range", p.Kind == "like-prefix":
+			continue
+		}
+		out = append(out, p)
 	}
 	return out
 }
